@@ -122,6 +122,16 @@ func approx(a bv) [3]float64 {
 	return out
 }
 
+var perKind = map[string]int{}
+
+// at most 3 reports per kind, so that one frequent kind cannot crowd out the others
+func violate(c *vkit.Collector, kind, desc string, replay interface{}) {
+	perKind[kind]++
+	if perKind[kind] <= 3 {
+		c.Violate(kind, desc, replay)
+	}
+}
+
 func lexLess(a, b r3.Vector) bool {
 	if a.X != b.X {
 		return a.X < b.X
@@ -172,17 +182,14 @@ func checkQuad(c *vkit.Collector, class string, q quad) {
 		rk := s2.Intersection(o[0], o[1], o[2], o[3])
 		if rk.Vector != r.Vector { // Go ==
 			rep["order"], rep["result_other"] = k, rk.Vector
-			c.Violate(kindOrder, "Intersection differs (Go ==) under reversing/swapping the edges", rep)
+			violate(c, kindOrder, "Intersection differs (Go ==) under reversing/swapping the edges", rep)
 			break
 		}
 		if math.Float64bits(rk.X) != math.Float64bits(r.X) || math.Float64bits(rk.Y) != math.Float64bits(r.Y) || math.Float64bits(rk.Z) != math.Float64bits(r.Z) {
 			zeroSigns++
-			if zeroSigns > 2 {
-				break // one kind, reported twice; do not crowd out other violations
-			}
 			rep2 := map[string]interface{}{"class": class, "points_hex": q.replay(), "order": k,
 				"result_hex": []string{hex(r.X), hex(r.Y), hex(r.Z)}, "result_other_hex": []string{hex(rk.X), hex(rk.Y), hex(rk.Z)}}
-			c.Violate("Intersection.zeroSignOrderDependent", "Intersection is == but not bit-identical (+0 / -0 coordinate) under reversing/swapping the edges", rep2)
+			violate(c, "Intersection.zeroSignOrderDependent", "Intersection is == but not bit-identical (+0 / -0 coordinate) under reversing/swapping the edges", rep2)
 			break
 		}
 	}
@@ -196,7 +203,7 @@ func checkQuad(c *vkit.Collector, class string, q quad) {
 	}
 	if !(math.Abs(n2) <= 4*0x1p-52*(1+margin)) {
 		rep["norm2_minus_1"] = n2
-		c.Violate(path+".unitLength", "result is not unit length (| |r|^2 - 1 | > 4*2^-52)", rep)
+		violate(c, path+".unitLength", "result is not unit length (| |r|^2 - 1 | > 4*2^-52)", rep)
 	}
 
 	if xP.isZero() {
@@ -221,7 +228,7 @@ func checkQuad(c *vkit.Collector, class string, q quad) {
 		c.Class(fmt.Sprintf("collinear:interior-endpoints=%d", n))
 		if best == nil || r.Vector != *best {
 			rep["expected"] = best
-			c.Violate("intersectionExact.collinear.notMinInterior", "collinear overlapping edges: result is not the smallest interior endpoint", rep)
+			violate(c, "intersectionExact.collinear.notMinInterior", "collinear overlapping edges: result is not the smallest interior endpoint", rep)
 		}
 		return
 	}
@@ -244,7 +251,7 @@ func checkQuad(c *vkit.Collector, class string, q quad) {
 	sn := math.Sqrt(s2a)
 	if bdot(R, xP).Sign() <= 0 {
 		rep["true_direction"] = approx(xP)
-		c.Violate("Intersection.antipode", "result is on the opposite side of the sphere from the crossing point", rep)
+		violate(c, "Intersection.antipode", "result is on the opposite side of the sphere from the crossing point", rep)
 		return
 	}
 	if stableOK && sn > maxSinSt {
@@ -256,7 +263,7 @@ func checkQuad(c *vkit.Collector, class string, q quad) {
 	if !(sn <= bound*(1+margin)) {
 		rep["sin_angle_to_true_point"] = sn
 		rep["bound"] = bound
-		c.Violate(path+".accuracy", "result is farther than intersectionError from the exact intersection point", rep)
+		violate(c, path+".accuracy", "result is farther than intersectionError from the exact intersection point", rep)
 	}
 }
 
@@ -541,4 +548,5 @@ func run(c *vkit.Collector, rng *vkit.Rng, budget int) {
 	c.Extra["bound_over_2^-53"] = bound / 0x1p-53
 	c.Extra["margin"] = margin
 	c.Extra["zero_sign_only_order_differences"] = zeroSigns
+	c.Extra["violations_per_kind"] = perKind
 }
